@@ -424,7 +424,7 @@ def build_program_cases(seed, i, tier):
             own = [it.name for it in prog.items if sp.assign[it.name] == m]
             rng.shuffle(own)
             empties = [n for n in own if prog.by_name[n].kind == "fn" and prog.by_name[n].body.endswith("{\n}\n")]
-            if empties and rng.random() < 0.5:
+            if empties and rng.random() < 0.8:
                 # a function with a parameter and an empty body as the last thing the module defines
                 e = rng.choice(empties)
                 own.remove(e)
